@@ -189,7 +189,7 @@ def plan(tier):
     units = [('props', tier, c) for c in chunks(texts, 24)]
     units.append(('fixed', tier))
     units += [('files', tier, k, 24) for k in range(24)]
-    units.append(('subprocess', tier))
+    units += [('subprocess', tier, part) for part in ('classes', 'unicode', 'multi')]
     return units
 
 
@@ -257,9 +257,10 @@ def run(unit):
         try:
             env = dict(os.environ)
             env['PYTHONPATH'] = str(REPO / 'src')
+            part = unit[2] if len(unit) > 2 else 'classes'
             cases = [('ok', VALID_PROPS[5])] + [(c, t) for c, t in INVALID_PROPS if t]
             seen = set()
-            for cls, text in cases:
+            for cls, text in cases if part == 'classes' else []:
                 if cls in seen:
                     continue
                 seen.add(cls)
@@ -283,6 +284,55 @@ def run(unit):
                                     r.violation('process JSON does not mirror the AST', {'text': text}, 'differs', size=len(text))
                             except ValueError as e:
                                 r.violation('process stdout is not strict JSON', {'text': text}, str(e), size=len(text))
+            # texts outside ASCII: well-formed Unicode and a raw non-UTF-8 byte in the argument vector (decoded by the
+            # interpreter with surrogateescape), x 3 I/O configurations of the process; files in UTF-8 and not
+            uni = [('unicode', 'globally: no a {sa = "caf\u00e9 \u2192 \U0001f600"}'.encode('utf-8')), ('unicode-title', '# title: "\u00fcber \u4e2d" globally: some b'.encode('utf-8')),
+                   ('raw-byte', b'globally: no a {sa = "x\xffy"}'), ('raw-byte-title', b'# description: "\xfe\xff" globally: no a')]
+            for cname, raw in uni if part == 'unicode' else []:
+                text = os.fsdecode(raw)
+                st, ast = expected_outcome('prop', text)
+                for ename, extra in (('default', {}), ('ascii-stdout', {'PYTHONIOENCODING': 'ascii'}), ('C-locale', {'LC_ALL': 'C', 'LANG': 'C'}), ('utf8-mode', {'PYTHONUTF8': '1'})):
+                    for want_json in (True, False):
+                        r.count('evaluations')
+                        r.count('states')
+                        r.count('transitions')
+                        e2 = dict(env)
+                        e2.pop('PYTHONIOENCODING', None)
+                        e2.update(extra)
+                        argv = [sys.executable, '-m', 'hpl', '-p'] + (['-o', 'json'] if want_json else []) + [raw]
+                        p = subprocess.run(argv, capture_output=True, env=e2, timeout=120)
+                        want = 0 if st == 'ok' else 1
+                        r.outcomes[f'process:{cname}:{ename}:{st}:exit={p.returncode}'] += 1
+                        wit = {'argv_bytes': raw.decode('latin-1'), 'env': extra, 'json': want_json}
+                        if p.returncode != want:
+                            r.violation('process exit status wrong [text outside ASCII]', wit, f'{cname}, {ename}: exit {p.returncode}, expected {want}; output {(p.stdout + p.stderr)[-200:]!r}', size=len(raw))
+                        elif st == 'ok' and want_json:
+                            try:
+                                doc = strict_loads(p.stdout.decode('utf-8'))
+                                if doc != mirror(ast):
+                                    r.violation('process JSON does not mirror the AST [text outside ASCII]', wit, f'{cname}, {ename}: {_first_diff(doc, mirror(ast))}', size=len(raw))
+                            except ValueError as e:
+                                r.violation('process stdout is not strict JSON [text outside ASCII]', wit, f'{cname}, {ename}: {e}', size=len(raw))
+            for cname, raw, want in () if part != 'unicode' else (('utf8-file', 'globally: no a {sa = "caf\u00e9"}\n'.encode('utf-8'), 0), ('latin1-file', 'globally: no a {sa = "caf\u00e9"}\n'.encode('latin-1'), 1)):
+                path = os.path.join(d, cname + '.hpl')
+                with open(path, 'wb') as fh:
+                    fh.write(raw)
+                for want_json in (True, False):
+                    r.count('evaluations')
+                    r.count('states')
+                    r.count('transitions')
+                    p = subprocess.run([sys.executable, '-m', 'hpl'] + (['-o', 'json'] if want_json else []) + [path], capture_output=True, env=env, timeout=120)
+                    r.outcomes[f'process:{cname}:exit={p.returncode}'] += 1
+                    if p.returncode != want:
+                        r.violation('process exit status wrong [file outside ASCII]', {'file_bytes': raw.decode('latin-1'), 'json': want_json}, f'{cname}: exit {p.returncode}, expected {want}', size=len(raw))
+                    elif want == 0 and want_json:
+                        try:
+                            doc = strict_loads(p.stdout.decode('utf-8'))
+                            exp_doc = mirror(expected_outcome('spec', raw.decode('utf-8'))[1])
+                            if doc != exp_doc:
+                                r.violation('process JSON does not mirror the AST [file outside ASCII]', {'file_bytes': raw.decode('latin-1')}, str(_first_diff(doc, exp_doc)), size=len(raw))
+                        except ValueError as e:
+                            r.violation('process stdout is not strict JSON [file outside ASCII]', {'file_bytes': raw.decode('latin-1')}, str(e), size=len(raw))
             # one process, both modes, both orders: a -p call and a file call must not influence each other
             two = os.path.join(d, 'two.hpl')
             with open(two, 'w', encoding='utf-8') as fh:
@@ -300,7 +350,7 @@ def run(unit):
             )
             calls_p = ['-p', '-o', 'json', 'globally: no a']
             calls_f = ['-o', 'json', two]
-            for order in ([calls_p, calls_f, calls_p], [calls_f, calls_p, calls_f], [calls_f, calls_f], [calls_p, calls_p]):
+            for order in ([calls_p, calls_f, calls_p], [calls_f, calls_p, calls_f], [calls_f, calls_f], [calls_p, calls_p]) if part == 'multi' else ():
                 r.count('evaluations')
                 r.count('states')
                 r.count('transitions', len(order))
@@ -331,6 +381,8 @@ def run(unit):
 
 def replay(w):
     r = Result()
+    if 'argv_bytes' in w or 'file_bytes' in w or 'order' in w or 'argv' not in w:
+        return [{'sig': v['sig'], 'detail': v['detail']} for v in [v for part in ('classes', 'unicode', 'multi') for v in run(('subprocess', 'quick', part)).violations]]
     argv = w['argv']
     if '<file>' in argv or '<missing>' in argv:
         d = tempfile.mkdtemp(prefix='hplmc_c19_')
@@ -348,7 +400,7 @@ def replay(w):
 def describe(tier):
     b = bounds(tier)
     return {
-        'rule': f"-p: every property skeleton (widths <= {b['max_width']}) x 3 decorations, 11 fixed valid texts covering every node kind incl. INF/NAN/PI/E and metadata, 8 invalid texts (syntax, sanity, type, unknown function, duplicate metadata, empty) x with/without -o json x short/long options; files: all 1- and 2-property files and a fifth of the 3-property files over the 11 valid texts, every invalid text at positions 0..2, empty / blank / dangling-annotation files, a missing file and a directory x with/without -o json; real processes: one text per outcome class x 4 configurations; and one process that makes 2-3 calls mixing -p and file mode in both orders (expectations hard-coded, not taken from the library). A transition = one hpl.cli.main call (or process).",
+        'rule': f"-p: every property skeleton (widths <= {b['max_width']}) x 3 decorations, 11 fixed valid texts covering every node kind incl. INF/NAN/PI/E and metadata, 8 invalid texts (syntax, sanity, type, unknown function, duplicate metadata, empty) x with/without -o json x short/long options; files: all 1- and 2-property files and a fifth of the 3-property files over the 11 valid texts, every invalid text at positions 0..2, empty / blank / dangling-annotation files, a missing file and a directory x with/without -o json; real processes: one text per outcome class x 4 configurations; 4 texts outside ASCII (well-formed Unicode, a raw non-UTF-8 byte in the argument vector) x 4 I/O configurations of the process (default, ascii stdout, C locale, UTF-8 mode) x with/without -o json, and a UTF-8 and a Latin-1 file; and one process that makes 2-3 calls mixing -p and file mode in both orders (expectations hard-coded, not taken from the library). A transition = one hpl.cli.main call (or process).",
         'bounds': b,
         'exhaustive': True,
         'assumptions': ['the library parser called directly decides "parses"; strict JSON = json.loads rejecting NaN/Infinity constants'],
